@@ -61,7 +61,7 @@ def generate(R, tier):
     nsteps = R.choice([1, 1, 1, 2, 2, 3])
     steps = []
     for _ in range(nsteps):
-        steps.append({"op": "evolve", "nrep": R.randint(0, 4), "ngen": R.randint(0, 4), "loginit": R.random() < 0.6})
+        steps.append({"op": "evolve", "nrep": R.randint(0, 4), "ngen": R.randint(0, 4), "loginit": R.random() < 0.6, "positional": R.random() < 0.3})
     total = sum(s["nrep"] * (1 + (1 if s["loginit"] else 0) + 8 * s["ngen"]) for s in steps)
     crashes = []
     if total and R.random() < 0.55:
@@ -131,8 +131,10 @@ def _mkstart(w):
     from pybrops.model.gmod.rrBLUPModel0 import rrBLUPModel0
     rr = rrBLUPModel0(beta=numpy.array(gm.beta, copy=True), u_misc=None, u_a=numpy.array(gm.u_a, copy=True), trait=gm.trait, method="ML", model_name="rr",
                       hyperparams={"shrinkage": numpy.array([0.5, 2.0]), "train_log": [1.0, 2.0], "grid": {"lo": numpy.array([0.1]), "n": 3}})
+    # predicted values as the model returns them: a subclass of the breeding-value matrix
+    gebv = gm.gebv(pg)
     out = [{"pg": pg, "k": 0}, {"pg": copy.deepcopy(pg), "g4": g4, "k": 1}, {"tbl": numpy.arange(3.0), "k": 2},
-           {"bv": bv, "k": 3}, {"gm": gm, "rr": rr, "k": 4}]
+           {"bv": bv, "gebv": gebv, "k": 3}, {"gm": gm, "rr": rr, "k": 4}]
     for i in w.get("empty", []):
         out[i] = {}
     return out
@@ -467,7 +469,11 @@ def execute(sc):
         initialised_before = sim.start_dig is not None
         crashed = False
         try:
-            bp.evolve(nrep=st["nrep"], ngen=st["ngen"], lbook=lb, loginit=st["loginit"])
+            if st.get("positional"):
+                # the documented parameter order, by position: evolve(nrep, ngen, lbook, loginit, verbose)
+                bp.evolve(st["nrep"], st["ngen"], lb, st["loginit"], False)
+            else:
+                bp.evolve(nrep=st["nrep"], ngen=st["ngen"], lbook=lb, loginit=st["loginit"])
         except SimCrash:
             crashed = True
             crashed_any = True
